@@ -4,21 +4,35 @@ package config
 
 import (
 	v1 "github.com/fatedier/frp/pkg/config/v1"
+	"github.com/fatedier/frp/pkg/config/v1/validation"
 	"github.com/fatedier/frp/pkg/msg"
 	"github.com/fatedier/frp/verif"
 )
 
-// NewProxyConfigurerFromMsg: a configuration or an error, never both nil. It
-// builds a new configuration object and writes nothing that existed before
-// (declared frame: the config methods it calls through the ProxyConfigurer
-// interface only touch that new object).
+// C18 "server-side reconstruction: type default, unmarshal, complete,
+// validate". NewProxyConfigurerFromMsg returns a configuration or an error,
+// never both nil; the configuration is of the type the message names (tcp when
+// it names none), carries the message's name, has been completed (bandwidth
+// limit mode defaulted) and is exactly the object the server-side validation
+// accepted, so the guarantees of ValidateProxyConfigurerForServer hold for it.
+// It writes nothing that existed before except the message's type default.
 //
 //verif:contract ~/pkg/config.NewProxyConfigurerFromMsg
 //verif:props C18
-//verif:modifies
-func verif_NewProxyConfigurerFromMsg(m *msg.NewProxy, serverCfg *v1.ServerConfig) {
-	mp0, name0 := serverCfg.MaxPortsPerClient, m.ProxyName
+func verif_NewProxyConfigurerFromMsg(m *msg.NewProxy, serverCfg *v1.ServerConfig, k int) {
+	mp0, name0, type0 := serverCfg.MaxPortsPerClient, m.ProxyName, m.ProxyType
+	verif.ResetEvents()
 	c, err := NewProxyConfigurerFromMsg(m, serverCfg)
 	verif.Ensures((err == nil) == (c != nil), "configuration_iff_no_error")
 	verif.Ensures(serverCfg.MaxPortsPerClient == mp0 && m.ProxyName == name0, "inputs_untouched")
+	if err == nil {
+		b := c.GetBaseConfig()
+		verif.Ensures(b.Name == name0, "name_from_message")
+		verif.Ensures(b.Type == type0 || (type0 == "" && b.Type == "tcp"), "type_from_message_default_tcp")
+		verif.Ensures(b.Transport.BandwidthLimitMode != "", "completed")
+		verif.Ensures(verif.CalledWith("validation.ValidateProxyConfigurerForServer", 0, c), "returned_configuration_was_validated")
+		if v, ok := c.(*v1.HTTPProxyConfig); ok && k >= 0 && k < len(v.CustomDomains) {
+			verif.Ensures(!validation.VerifInSubdomainSpace(v.CustomDomains[k], serverCfg.SubDomainHost), "http_domains_outside_subdomain_space")
+		}
+	}
 }
